@@ -74,7 +74,8 @@ def Disk.applyAll (d : Disk) (as : List Action) : Disk := as.foldl Disk.apply d
 /-! ### Recovery -/
 
 inductive RecErr
-  | noManifest | snapshotUnreadable | missingSegment (n : Nat) | corruptFrames (n : Nat) | badMagic (n : Nat)
+  | noManifest | manifestUnreadable | snapshotUnreadable | missingSegment (n : Nat) | corruptFrames (n : Nat)
+  | badMagic (n : Nat)
 deriving DecidableEq, Repr
 
 def Docs.apply (d : Docs) (e : WEntry) : Docs :=
@@ -92,13 +93,20 @@ def replay (base : Docs) (snapSeq : Nat) (es : List WEntry) : Docs :=
 
 def maxSeq (m : Nat) (es : List WEntry) : Nat := es.foldl (fun a e => max a e.seq) m
 
+def insertDesc (x : Nat) : List Nat → List Nat
+  | [] => [x]
+  | y :: ys => if y ≤ x then x :: y :: ys else y :: insertDesc x ys
+
+/-- newest first (structural, so that concrete recoveries reduce in the kernel) -/
+def sortDesc (l : List Nat) : List Nat := l.foldr insertDesc []
+
 /-- `Snapshot::load_with_validation`: the pointed file, else up to five older `*.snap` files of
     the directory, newest first (all of them when the pointed file is not in the directory). -/
 def loadSnapshot (d : Disk) (name : Nat) : Option SnapFile :=
   match alookup name d.snaps with
   | some (some s) => some s
   | _ =>
-    let names := ((d.snaps.map (·.1)).mergeSort (fun a b => b ≤ a)).eraseDups
+    let names := (sortDesc (d.snaps.map (·.1))).eraseDups
     let older := if names.contains name then names.filter (· < name) else names
     ((older.take 5).filterMap fun n => (alookup n d.snaps).join).head?
 
